@@ -1,4 +1,8 @@
 import OW.Sim.Interleave
+import OW.Sim.CellTasks
+import OW.Sim.Join
+import OW.Props.C04
+import OW.Props.C05Facts
 /-!
 C05 — concurrent cell and model execution is race-free and schedule-independent.
 
@@ -308,5 +312,472 @@ theorem runSched_seqSched : ∀ (ts : List (Task Addr Val)) (k : Nat) (m : Mem A
     have : runSched (t.map fun s => (k, s)) m = runList t m := by simp [runSched, List.map_map, Function.comp_def]
     rw [this]
     exact runSched_seqSched ts (k + 1) (runList t m)
+
+/-! ### order of pairwise non-conflicting steps does not matter (permutation form) -/
+
+/-- steps drawn from a family `f` whose members with different indices never conflict: running them in the order
+`l₁` or in any permutation `l₂` of it gives the same memory -/
+theorem perm_runList [DecidableEq Addr] (f : Nat → Step Addr Val) (hf : ∀ i j, i ≠ j → NoConflict (f i) (f j))
+    {l₁ l₂ : List Nat} (hp : l₁.Perm l₂) : l₁.Nodup → ∀ m : Mem Addr Val, runList (l₁.map f) m = runList (l₂.map f) m := by
+  induction hp with
+  | nil => intro _ m; rfl
+  | cons x _ ih =>
+    intro hn m
+    simp only [List.map_cons, runList_cons]
+    exact ih (List.nodup_cons.mp hn).2 _
+  | swap x y l =>
+    intro hn m
+    simp only [List.map_cons, runList_cons]
+    have hxy : y ≠ x := by
+      intro e
+      have := (List.nodup_cons.mp hn).1
+      exact this (by simp [e])
+    rw [steps_commute (f x) (f y) (hf x y (Ne.symm hxy)) m]
+  | trans h₁ _ ih₁ ih₂ =>
+    intro hn m
+    rw [ih₁ hn m, ih₂ (h₁.nodup_iff.mp hn) m]
+
+/-! ### T3 — the cells of one `Run` call: pairwise disjoint, hence schedule independent -/
+
+section Cells
+open OW OW.Sim OW.Sim.CellTasks
+
+variable {α : Type} [Num α]
+variable (km : KModel α) (spec : ParamSpec) (lay : List (Nat × Nat)) (params : List (List α))
+  (inputs : List (List (List α)))
+
+/-- **T3 `cells_disjoint`.** For `i ≠ j` the step of cell `i` (reads and writes its own state row and output rows,
+nothing else in the shared arrays) and the step of cell `j` do not conflict. -/
+theorem cells_disjoint (i j : Nat) (h : i ≠ j) :
+    NoConflict (cellStepM km spec lay params inputs i) (cellStepM km spec lay params inputs j) := by
+  constructor <;> intro a ha <;> simp [cellStepM, Step.foot] at ha ⊢ <;>
+    rcases ha with e | e <;> subst e <;> simp <;> omega
+
+theorem cellTasks_get (n i : Nat) (t : Task CAddr (CVal α))
+    (h : (cellTasks km spec lay params inputs n)[i]? = some t) : t = [cellStepM km spec lay params inputs i] := by
+  unfold cellTasks at h
+  rw [List.getElem?_map] at h
+  cases hr : (List.range n)[i]? with
+  | none => simp [hr] at h
+  | some k =>
+    have hk : k = i := by
+      have := List.getElem?_eq_some_iff.mp hr
+      obtain ⟨_, e⟩ := this
+      simpa using e.symm
+    subst hk
+    simpa [hr] using h.symm
+
+theorem cellTasks_disjoint (n : Nat) : TasksDisjoint (cellTasks km spec lay params inputs n) := by
+  intro i j ti tj hi hj hij s hs t ht
+  rw [cellTasks_get km spec lay params inputs n i ti hi] at hs
+  rw [cellTasks_get km spec lay params inputs n j tj hj] at ht
+  simp only [List.mem_singleton] at hs ht
+  subst hs; subst ht
+  exact (cells_disjoint km spec lay params inputs i j hij).1
+
+theorem flatten_map_singleton {β γ : Type} (f : β → γ) : ∀ l : List β, (l.map fun i => [f i]).flatten = l.map f
+  | [] => rfl
+  | x :: l => by simp [flatten_map_singleton f l]
+
+/-- memory after the cells `0 … k-1` have run (in index order): their rows are the final ones, the others untouched -/
+def mix (m0 mf : Mem CAddr (CVal α)) (k : Nat) : Mem CAddr (CVal α) := fun a => if a.idx < k then mf a else m0 a
+
+/-- the sequential cell-by-cell execution of the step model IS `runCells` -/
+theorem seq_eq_runCells (cells : List (List α)) (outs : List (List (List α))) (ss : List (List α))
+    (os : List (List (List α))) (h : runCells km spec lay params inputs 0 cells outs = .ok (ss, os)) :
+    runList ((List.range cells.length).map (cellStepM km spec lay params inputs)) (memOf cells outs) = memOf ss os := by
+  obtain ⟨hl1, hl2, hle, hstep, hrest⟩ := OW.Props.C04.runCells_spec km spec lay params inputs cells outs 0 ss os h
+  have key : ∀ k, k ≤ cells.length →
+      runList ((List.range k).map (cellStepM km spec lay params inputs)) (memOf cells outs) =
+        mix (memOf cells outs) (memOf ss os) k := by
+    intro k
+    induction k with
+    | zero => intro _; funext a; simp [mix]
+    | succ k ih =>
+      intro hk
+      have hk' : k < cells.length := by omega
+      have hko : k < outs.length := by omega
+      rw [List.range_succ, List.map_append, runList_append, ih (by omega)]
+      simp only [List.map_cons, List.map_nil, runList_cons, runList_nil]
+      obtain ⟨s', o', hc, hs', ho'⟩ := hstep k hk' hko
+      have hc' : cellStep km spec lay params inputs k cells[k] outs[k] = .ok (s', o') := by simpa using hc
+      have e1 : mix (memOf cells outs) (memOf ss os) k (.st k) = .st cells[k] := by
+        simp [mix, CAddr.idx, memOf, List.getElem?_eq_getElem hk']
+      have e2 : mix (memOf cells outs) (memOf ss os) k (.out k) = .out outs[k] := by
+        simp [mix, CAddr.idx, memOf, List.getElem?_eq_getElem hko]
+      show cellRun km spec lay params inputs k (mix (memOf cells outs) (memOf ss os) k) = _
+      unfold cellRun
+      rw [e1, e2]
+      simp only [cellNew, hc']
+      funext a
+      by_cases ha1 : a = .st k
+      · subst ha1
+        simp [upd, mix, CAddr.idx, memOf, hs']
+      · by_cases ha2 : a = .out k
+        · subst ha2
+          simp [upd, mix, CAddr.idx, memOf, ho']
+        · rw [upd_other _ _ _ _ ha2, upd_other _ _ _ _ ha1]
+          have hidx : a.idx ≠ k := by
+            cases a with
+            | st i => intro e; apply ha1; simp [CAddr.idx] at e; rw [e]
+            | out i => intro e; apply ha2; simp [CAddr.idx] at e; rw [e]
+          simp only [mix]
+          by_cases hlt : a.idx < k
+          · rw [if_pos hlt, if_pos (by omega)]
+          · rw [if_neg hlt, if_neg (by omega)]
+  rw [key cells.length (Nat.le_refl _)]
+  funext a
+  simp only [mix]
+  by_cases hlt : a.idx < cells.length
+  · rw [if_pos hlt]
+  · rw [if_neg hlt]
+    cases a with
+    | st i =>
+      have hi : cells.length ≤ i := by simpa [CAddr.idx] using hlt
+      simp [memOf, List.getElem?_eq_none hi, List.getElem?_eq_none (by omega : ss.length ≤ i)]
+    | out i =>
+      have hi : cells.length ≤ i := by simpa [CAddr.idx] using hlt
+      simp [memOf, hrest i hi]
+
+/-- **T3 `cells_schedule_independent` (permutation form).** If the vectorised run of the model succeeds with result
+`(ss, os)`, then running the per-cell steps in ANY order `perm` (any permutation of `0 … N-1`) on the initial arrays
+produces exactly the arrays `(ss, os)` of `runCells`, the sequential cell-by-cell result. -/
+theorem cells_schedule_independent (cells : List (List α)) (outs : List (List (List α))) (ss : List (List α))
+    (os : List (List (List α))) (h : runCells km spec lay params inputs 0 cells outs = .ok (ss, os))
+    (perm : List Nat) (hp : perm.Perm (List.range cells.length)) :
+    runList (perm.map (cellStepM km spec lay params inputs)) (memOf cells outs) = memOf ss os := by
+  rw [perm_runList (cellStepM km spec lay params inputs) (cells_disjoint km spec lay params inputs) hp
+    (hp.nodup_iff.mpr List.nodup_range)]
+  exact seq_eq_runCells km spec lay params inputs cells outs ss os h
+
+/-- **T3 `cells_any_interleaving` (through T2).** Every interleaving of the cells' tasks — every schedule of the
+goroutines at the granularity of the footprints — ends in the memory image of `runCells`' result. -/
+theorem cells_any_interleaving (cells : List (List α)) (outs : List (List (List α))) (ss : List (List α))
+    (os : List (List (List α))) (h : runCells km spec lay params inputs 0 cells outs = .ok (ss, os))
+    (sched : Sched CAddr (CVal α)) (hi : Interleaving (cellTasks km spec lay params inputs cells.length) sched) :
+    runSched sched (memOf cells outs) = memOf ss os := by
+  rw [disjoint_interleaving _ (cellTasks_disjoint km spec lay params inputs cells.length) sched hi]
+  simp only [seqRun, cellTasks, flatten_map_singleton]
+  exact seq_eq_runCells km spec lay params inputs cells outs ss os h
+
+/-- … read as arrays: if a schedule's final memory is the image of arrays `(ss', os')`, these are `runCells`' arrays -/
+theorem cells_any_interleaving_arrays (cells : List (List α)) (outs : List (List (List α))) (ss ss' : List (List α))
+    (os os' : List (List (List α))) (h : runCells km spec lay params inputs 0 cells outs = .ok (ss, os))
+    (sched : Sched CAddr (CVal α)) (hi : Interleaving (cellTasks km spec lay params inputs cells.length) sched)
+    (hm : runSched sched (memOf cells outs) = memOf ss' os') : ss' = ss ∧ os' = os := by
+  rw [cells_any_interleaving km spec lay params inputs cells outs ss os h sched hi] at hm
+  obtain ⟨a, b⟩ := memOf_inj hm
+  exact ⟨a.symm, b.symm⟩
+
+end Cells
+
+/-! ### T4 — the `doneChan` join: no sender blocked forever, the parent returns only after all tasks finished -/
+
+section Join
+open OW.Sim.Join
+
+theorem sumf_set (f : Phase → Nat) : ∀ (l : List Phase) (i : Nat) (a b : Phase), l[i]? = some a →
+    sumf f (l.set i b) + f a = sumf f l + f b
+  | [], i, a, b, h => by simp at h
+  | p :: l, 0, a, b, h => by
+    simp at h; subst h
+    simp only [List.set_cons_zero, sumf]; omega
+  | p :: l, i + 1, a, b, h => by
+    have h' : l[i]? = some a := by simpa using h
+    have := sumf_set f l i a b h'
+    simp only [List.set_cons_succ, sumf]; omega
+
+theorem sumf_isDone_le : ∀ l : List Phase, sumf isDone l ≤ l.length
+  | [] => Nat.le_refl 0
+  | p :: l => by
+    have := sumf_isDone_le l
+    cases p <;> simp only [sumf, isDone, List.length_cons] <;> omega
+
+theorem sumf_isDone_lt : ∀ (l : List Phase) (i : Nat) (a : Phase), l[i]? = some a → a ≠ .done → sumf isDone l < l.length
+  | [], i, a, h, _ => by simp at h
+  | p :: l, 0, a, h, hne => by
+    simp at h; subst h
+    have := sumf_isDone_le l
+    cases p <;> simp only [sumf, isDone, List.length_cons] <;> first | omega | exact absurd rfl hne
+  | p :: l, i + 1, a, h, hne => by
+    have h' : l[i]? = some a := by simpa using h
+    have := sumf_isDone_lt l i a h' hne
+    cases p <;> simp only [sumf, isDone, List.length_cons] <;> omega
+
+theorem allDone_of_sumf_eq : ∀ l : List Phase, sumf isDone l = l.length → ∀ p, p ∈ l → p = .done := by
+  intro l h p hp
+  obtain ⟨i, hi⟩ := List.mem_iff_getElem?.mp hp
+  by_cases hd : p = .done
+  · exact hd
+  · have := sumf_isDone_lt l i p hi hd
+    omega
+
+theorem sumf_eq_of_allDone : ∀ l : List Phase, (∀ p, p ∈ l → p = .done) → sumf isDone l = l.length
+  | [], _ => rfl
+  | p :: l, h => by
+    have hp : p = .done := h p List.mem_cons_self
+    subst hp
+    have := sumf_eq_of_allDone l (fun q hq => h q (List.mem_cons_of_mem _ hq))
+    simp only [sumf, isDone, List.length_cons]; omega
+
+theorem weight_zero_allDone : ∀ l : List Phase, sumf weight l = 0 → ∀ p, p ∈ l → p = .done
+  | [], _, p, hp => by simp at hp
+  | q :: l, h, p, hp => by
+    simp only [sumf] at h
+    rcases List.mem_cons.mp hp with e | e
+    · subst e
+      cases p <;> simp only [weight] at h <;> first | rfl | omega
+    · exact weight_zero_allDone l (by omega) p e
+
+theorem sumf_weight_replicate : ∀ n : Nat, sumf weight (List.replicate n .running) = 2 * n
+  | 0 => rfl
+  | n + 1 => by
+    have := sumf_weight_replicate n
+    simp only [List.replicate_succ, sumf, weight]; omega
+
+theorem sumf_isDone_replicate : ∀ n : Nat, sumf isDone (List.replicate n .running) = 0
+  | 0 => rfl
+  | n + 1 => by
+    have := sumf_isDone_replicate n
+    simp only [List.replicate_succ, sumf, isDone]; omega
+
+theorem trans_length {s t : St} (h : Trans s t) : t.ph.length = s.ph.length := by
+  cases h <;> simp
+
+theorem reach_length {n : Nat} {s : St} (h : Reach n s) : s.ph.length = n := by
+  induction h with
+  | init => simp [init]
+  | step _ ht ih => rw [trans_length ht, ih]
+
+/-- invariant: the parent has received exactly as many values as goroutines are past their send -/
+theorem reach_inv {n : Nat} {s : St} (h : Reach n s) : s.recvd = sumf isDone s.ph := by
+  induction h with
+  | init => simp [init, sumf_isDone_replicate]
+  | @step s t _ ht ih =>
+    cases ht with
+    | finish i hi =>
+      have := sumf_set isDone s.ph i .running .ready hi
+      show s.recvd = sumf isDone (s.ph.set i .ready)
+      simp only [isDone] at this
+      omega
+    | rendezvous i hi hlt =>
+      have := sumf_set isDone s.ph i .ready .done hi
+      show s.recvd + 1 = sumf isDone (s.ph.set i .done)
+      simp only [isDone] at this
+      omega
+
+/-- every transition consumes exactly one remaining action -/
+theorem trans_measure {s t : St} (h : Trans s t) : remaining t + 1 = remaining s := by
+  cases h with
+  | finish i hi =>
+    have := sumf_set weight s.ph i .running .ready hi
+    simp only [remaining, weight] at this ⊢
+    omega
+  | rendezvous i hi hlt =>
+    have := sumf_set weight s.ph i .ready .done hi
+    simp only [remaining, weight] at this ⊢
+    omega
+
+theorem path_reach {n : Nat} {s t : St} {k : Nat} (hs : Reach n s) (h : Path s t k) : Reach n t := by
+  induction h with
+  | nil => exact hs
+  | snoc _ ht ih => exact Reach.step ih ht
+
+theorem path_measure {s t : St} {k : Nat} (h : Path s t k) : remaining t + k = remaining s := by
+  induction h with
+  | nil => rfl
+  | snoc _ ht ih => have := trans_measure ht; omega
+
+/-- **T4a `sender_never_stuck`.** In every reachable state, a goroutine that is blocked at its send can complete it
+right now: the parent still has a receive to do. (So no sender is blocked forever, whatever the other goroutines do.) -/
+theorem sender_never_stuck (n : Nat) (s : St) (hr : Reach n s) (i : Nat) (hi : s.ph[i]? = some .ready) :
+    ∃ t, Trans s t ∧ t.ph[i]? = some .done := by
+  have hinv := reach_inv hr
+  have hlt : s.recvd < s.ph.length := by
+    rw [hinv]; exact sumf_isDone_lt s.ph i .ready hi (by decide)
+  refine ⟨_, Trans.rendezvous s i hi hlt, ?_⟩
+  have : i < s.ph.length := by
+    rcases List.getElem?_eq_some_iff.mp hi with ⟨h, _⟩
+    exact h
+  simp [List.getElem?_set_self this]
+
+/-- **T4b `join_progress`.** Deadlock freedom: every reachable state in which not all goroutines are done has a
+successor. -/
+theorem join_progress (n : Nat) (s : St) (hr : Reach n s) (hnd : ¬ AllDone s) : ∃ t, Trans s t := by
+  have : ∃ p, p ∈ s.ph ∧ p ≠ .done := by
+    apply Classical.byContradiction
+    intro hne
+    apply hnd
+    intro p hp
+    apply Classical.byContradiction
+    intro hpd
+    exact hne ⟨p, hp, hpd⟩
+  obtain ⟨p, hp, hpd⟩ := this
+  obtain ⟨i, hi⟩ := List.mem_iff_getElem?.mp hp
+  cases p with
+  | running => exact ⟨_, Trans.finish s i hi⟩
+  | ready =>
+    obtain ⟨t, ht, _⟩ := sender_never_stuck n s hr i hi
+    exact ⟨t, ht⟩
+  | done => exact absurd rfl hpd
+
+/-- **T4c `return_only_after_all_finished`.** Whenever the parent has completed its N receives (it returns from
+`Run` / `runGeneration`), every goroutine has finished its work and completed its send. -/
+theorem return_only_after_all_finished (n : Nat) (s : St) (hr : Reach n s) (ht : Terminal s) : AllDone s := by
+  have hinv := reach_inv hr
+  unfold Terminal at ht
+  exact allDone_of_sumf_eq s.ph (by omega)
+
+/-- … and at the very moment of the parent's N-th receive no goroutine is still running -/
+theorem last_receive_after_all_finished (n : Nat) (s t : St) (hr : Reach n s) (h : Trans s t)
+    (hN : t.recvd = n) : ∀ p, p ∈ s.ph → p ≠ .running := by
+  have hrt : Reach n t := Reach.step hr h
+  have hall := return_only_after_all_finished n t hrt (by unfold Terminal; rw [hN, reach_length hrt])
+  have hm := trans_measure h
+  have h0 : remaining t = 0 := by
+    have : sumf isDone t.ph = t.ph.length := sumf_eq_of_allDone t.ph hall
+    -- all done ⇒ weight 0
+    unfold remaining
+    have hz : ∀ l : List Phase, (∀ p, p ∈ l → p = .done) → sumf weight l = 0 := by
+      intro l
+      induction l with
+      | nil => intro _; rfl
+      | cons q l ih =>
+        intro hq
+        have : q = .done := hq q List.mem_cons_self
+        subst this
+        simp only [sumf, weight, ih (fun r hr => hq r (List.mem_cons_of_mem _ hr))]
+    exact hz t.ph hall
+  -- remaining s = 1: a single `ready` goroutine, nobody running
+  intro p hp hrun
+  subst hrun
+  obtain ⟨i, hi⟩ := List.mem_iff_getElem?.mp hp
+  have hge : ∀ (l : List Phase) (i : Nat), l[i]? = some .running → 2 ≤ sumf weight l := by
+    intro l
+    induction l with
+    | nil => intro i h; simp at h
+    | cons q l ih =>
+      intro i h
+      cases i with
+      | zero => simp at h; subst h; simp only [sumf, weight]; omega
+      | succ i => have := ih i (by simpa using h); simp only [sumf]; omega
+  have := hge s.ph i hi
+  unfold remaining at hm h0
+  omega
+
+/-- **T4 `join_complete`.** For EVERY number `n` of goroutines (induction, not a bounded check): from the initial
+state (all running, no receive done)
+1. every execution has at most `2n` transitions (each goroutine finishes once and sends once);
+2. every reachable state that is not all-done has a successor (no deadlock; in particular a blocked sender can
+   always proceed — `sender_never_stuck`), so executions can only stop in an all-done state;
+3. every execution of `2n` transitions ends in the terminal state: the parent has done its `n` receives and all
+   goroutines are done;
+4. the parent's `n`-th receive is completed only in states where all goroutines have finished. -/
+theorem join_complete (n : Nat) :
+    (∀ t k, Path (init n) t k → k ≤ 2 * n) ∧
+    (∀ s, Reach n s → ¬ AllDone s → ∃ t, Trans s t) ∧
+    (∀ t, Path (init n) t (2 * n) → Terminal t ∧ AllDone t) ∧
+    (∀ s, Reach n s → Terminal s → AllDone s) ∧
+    (∀ s, Reach n s → AllDone s → Terminal s) := by
+  have hm0 : remaining (init n) = 2 * n := by simp [remaining, init, sumf_weight_replicate]
+  refine ⟨?_, join_progress n, ?_, return_only_after_all_finished n, ?_⟩
+  · intro t k hp
+    have := path_measure hp
+    omega
+  · intro t hp
+    have hmt := path_measure hp
+    have hr : Reach n t := path_reach Reach.init hp
+    have hall : AllDone t := weight_zero_allDone t.ph (by unfold remaining at hmt hm0; omega)
+    refine ⟨?_, hall⟩
+    unfold Terminal
+    rw [reach_inv hr]
+    exact sumf_eq_of_allDone t.ph hall
+  · intro s hr hall
+    unfold Terminal
+    rw [reach_inv hr]
+    exact sumf_eq_of_allDone s.ph hall
+
+end Join
+
+/-! ### Non-vacuity -/
+
+section Examples
+open OW OW.Sim OW.Sim.CellTasks OW.Sim.Join
+
+/-- `m[a] += 1` -/
+def inc (a : Nat) : Step Nat Nat :=
+  Step.ofFun [a] [a] (fun m _ => m a + 1) (by intro m m' h b _; simp [h a (by simp)])
+/-- `m[0] = 1` -/
+def setOne : Step Nat Nat := Step.ofFun [] [0] (fun _ _ => 1) (by intro _ _ _ _ _; rfl)
+/-- `m[0] *= 2` -/
+def dbl : Step Nat Nat := Step.ofFun [0] [0] (fun m _ => 2 * m 0) (by intro m m' h b _; simp [h 0 (by simp)])
+
+/-- T1's hypothesis is satisfiable … -/
+example : NoConflict (inc 0) (inc 1) := by
+  constructor <;> intro a ha <;> simp [inc, Step.ofFun, Step.foot] at ha ⊢ <;> omega
+example (m : Mem Nat Nat) : (inc 0).run ((inc 1).run m) = (inc 1).run ((inc 0).run m) :=
+  steps_commute _ _ (by constructor <;> intro a ha <;> simp [inc, Step.ofFun, Step.foot] at ha ⊢ <;> omega) m
+/-- … and needed: two steps that write the same address do not commute -/
+example : setOne.run (dbl.run (fun _ => 0)) 0 = 1 ∧ dbl.run (setOne.run (fun _ => 0)) 0 = 2 := by
+  simp [setOne, dbl, Step.ofFun]
+
+/-- a toy kernel without arithmetic: the output series is the old state row, the new state row is the first input -/
+def toyKernel {α : Type} : KModel α :=
+  ⟨"toy", fun _ => .ok [], fun _ ins st => .ok { outputs := [st], states := ins.headD [] }⟩
+
+/-- the hypothesis of T3 (`runCells` succeeds) is satisfiable: two cells sharing one input block -/
+theorem toy_run {α : Type} [Num α] (a b u v : α) :
+    runCells (toyKernel (α := α)) [] [] [] [[[u]]] 0 [[a], [b]] [[[v]], [[v]]] = .ok ([[u], [u]], [[[a]], [[b]]]) := by
+  simp [runCells, cellStep, cellParams, cellParams.go, toyKernel, overwrite, bind, Except.bind, pure, Except.pure]
+
+/-- T3 on it: running cell 1 before cell 0 gives the arrays of the sequential run -/
+example {α : Type} [Num α] (a b u v : α) :
+    runList ([1, 0].map (cellStepM (toyKernel (α := α)) [] [] [] [[[u]]])) (memOf [[a], [b]] [[[v]], [[v]]]) =
+      memOf [[u], [u]] [[[a]], [[b]]] :=
+  cells_schedule_independent toyKernel [] [] [] [[[u]]] [[a], [b]] [[[v]], [[v]]] _ _ (toy_run a b u v) [1, 0]
+    (List.Perm.swap 0 1 [])
+
+/-- T2's hypotheses are satisfiable by a non-sequential schedule: cell 1's goroutine runs first -/
+example {α : Type} [Num α] (a b u v : α) :
+    runSched [(1, cellStepM (toyKernel (α := α)) [] [] [] [[[u]]] 1), (0, cellStepM toyKernel [] [] [] [[[u]]] 0)]
+        (memOf [[a], [b]] [[[v]], [[v]]]) = memOf [[u], [u]] [[[a]], [[b]]] := by
+  apply cells_any_interleaving toyKernel [] [] [] [[[u]]] [[a], [b]] [[[v]], [[v]]] _ _ (toy_run a b u v)
+  refine Interleaving.step 1 _ [] rfl (Interleaving.step 0 _ [] rfl (Interleaving.done ?_))
+  intro t ht
+  simp [cellTasks, List.range, List.range.loop] at ht
+  rcases ht with rfl | rfl <;> rfl
+
+/-- every list of tasks has at least one interleaving (the sequential one), and it runs to `seqRun` -/
+example {Addr Val : Type} (ts : List (Task Addr Val)) : Interleaving ts (seqSched 0 ts) := by
+  simpa using seqSched_interleaving ts 0
+
+/-- T4: a concrete execution for two goroutines: 1 finishes, 0 finishes, 1 sends, 0 sends — the parent returns -/
+example : Path (Join.init 2) ⟨[.done, .done], 2⟩ 4 :=
+  Path.snoc (Path.snoc (Path.snoc (Path.snoc (Path.nil _)
+    (Trans.finish (Join.init 2) 1 rfl))
+    (Trans.finish ⟨[.running, .ready], 0⟩ 0 rfl))
+    (Trans.rendezvous ⟨[.ready, .ready], 0⟩ 1 rfl (by decide)))
+    (Trans.rendezvous ⟨[.ready, .done], 1⟩ 0 rfl (by decide))
+/-- before all goroutines are done the parent has not returned: a state with `recvd = 2` and a running goroutine is
+not reachable -/
+example : ¬ Reach 2 ⟨[.running, .done], 2⟩ := by
+  intro h
+  have := return_only_after_all_finished 2 _ h rfl
+  have := this .running (by simp)
+  cases this
+/-- the guard `recvd < N` of the rendezvous is what a missing receive would change: in the state where the parent
+has already done all the receives it is going to do, a goroutine still waiting at its send has no transition — which
+is why the run facts insist on exactly one receive per launched goroutine (`recvPerIter = 1`, `sameBound`) -/
+example : ¬ ∃ t, Trans ⟨[.done, .ready], 2⟩ t := by
+  intro ⟨t, h⟩
+  cases h with
+  | finish i hi =>
+    have : i < 2 := by
+      rcases List.getElem?_eq_some_iff.mp hi with ⟨h, _⟩
+      simpa using h
+    rcases i with _ | _ | i <;> simp at hi <;> omega
+  | rendezvous i hi hlt => simp at hlt
+
+end Examples
 
 end OW.Props.C05
